@@ -14,6 +14,8 @@ enumeration fails at the offending code; a harmless rewrite (renamed local, reor
 import Rs1090.Gen.BdsFns
 import Rs1090.Model.Decode.Bds50
 import Rs1090.Model.Decode.Bds60
+import Rs1090.Model.Decode.Bds40
+import Rs1090.Model.Decode.Bds44
 import Mathlib.Tactic.Linarith
 namespace Rs1090.Proofs.GenBds
 open Rs1090 Rs1090.Model
@@ -253,6 +255,48 @@ theorem bds60_readers :
   · simpa [machOk] using bds60_mach i s v hv
   · simpa [verticalOk] using bds60_vertical s g v hg hv
 
+/-! ### BDS 4,0 (selected altitudes, QNH) and BDS 4,4 (pressure, humidity) -/
+
+def selectedOk (s : Bool) (v : Nat) : Bool :=
+  decide (Gen.BdsFns.Bds40.read_selected s v = Model.Bds40.selectedAlt s v)
+/-- the model holds tenths of hPa: `value as f64 * 0.1 + 800.` read exactly is `(value + 8000) / 10` -/
+def qnhOk (s : Bool) (v : Nat) : Bool :=
+  decide (Gen.BdsFns.Bds40.read_qnh s v = scaledN 1 10 (Model.Bds40.qnhNum s v))
+def pressure44Ok (s : Bool) (v : Nat) : Bool :=
+  decide (Gen.BdsFns.Bds44.read_pressure s v = Model.Bds44.pressure s v)
+/-- the model holds `value · 100`, numerator over 64 of the percentage -/
+def humidityOk (s : Bool) (v : Nat) : Bool :=
+  decide (Gen.BdsFns.Bds44.read_humidity s v = scaledN 1 64 (Model.Bds44.humidity s v))
+
+/-- `read_selected`, all 2^13 codes -/
+theorem bds40_selected : ∀ s v, v < 2 ^ 12 → selectedOk s v = true := enum2 _ 12 (by decide +kernel)
+/-- `read_qnh`, all 2^13 codes -/
+theorem bds40_qnh : ∀ s v, v < 2 ^ 12 → qnhOk s v = true := enum2 _ 12 (by decide +kernel)
+/-- `read_pressure` of BDS 4,4, all 2^12 codes -/
+theorem bds44_pressure : ∀ s v, v < 2 ^ 11 → pressure44Ok s v = true := enum2 _ 11 (by decide +kernel)
+/-- `read_humidity`, all 2^7 codes -/
+theorem bds44_humidity : ∀ s v, v < 2 ^ 6 → humidityOk s v = true := enum2 _ 6 (by decide +kernel)
+
+theorem bds40_44_layouts :
+    Gen.BdsFns.Bds40.read_selected_layout = [("bool", 1), ("u16", 12)] ∧
+    Gen.BdsFns.Bds40.read_qnh_layout = [("bool", 1), ("u16", 12)] ∧
+    Gen.BdsFns.Bds44.read_pressure_layout = [("bool", 1), ("u16", 11)] ∧
+    Gen.BdsFns.Bds44.read_humidity_layout = [("bool", 1), ("u8", 6)] := by decide
+
+theorem bds40_readers :
+    (∀ s v, v < 2 ^ 12 → Gen.BdsFns.Bds40.read_selected s v = Model.Bds40.selectedAlt s v) ∧
+    (∀ s v, v < 2 ^ 12 → Gen.BdsFns.Bds40.read_qnh s v = scaledN 1 10 (Model.Bds40.qnhNum s v)) := by
+  refine ⟨fun s v hv => ?_, fun s v hv => ?_⟩
+  · simpa [selectedOk] using bds40_selected s v hv
+  · simpa [qnhOk] using bds40_qnh s v hv
+
+theorem bds44_readers :
+    (∀ s v, v < 2 ^ 11 → Gen.BdsFns.Bds44.read_pressure s v = Model.Bds44.pressure s v) ∧
+    (∀ s v, v < 2 ^ 6 → Gen.BdsFns.Bds44.read_humidity s v = scaledN 1 64 (Model.Bds44.humidity s v)) := by
+  refine ⟨fun s v hv => ?_, fun s v hv => ?_⟩
+  · simpa [pressure44Ok] using bds44_pressure s v hv
+  · simpa [humidityOk] using bds44_humidity s v hv
+
 /-! ### counterexample listing (not part of the check; `#eval Rs1090.Proofs.GenBds.disagreements`) -/
 
 def codes3 (dg dv : Nat) : List (Bool × Nat × Nat) :=
@@ -268,6 +312,10 @@ def disagreements : List (String × Bool × Nat × Nat) :=
   ((codes3 1 10).filter fun (s, g, v) => !headingOk s g v).map (fun c => ("bds60.read_heading", c)) ++
   ((codes3 0 10).filter fun (s, _, v) => !iasOk s v).map (fun c => ("bds60.read_ias", c)) ++
   ((codes3 0 10).filter fun (s, _, v) => !(machOk none s v && machOk (some 1) s v && machOk (some 150) s v && machOk (some 251) s v)).map (fun c => ("bds60.read_mach", c)) ++
-  ((codes3 1 9).filter fun (s, g, v) => !verticalOk s g v).map (fun c => ("bds60.read_vertical", c))
+  ((codes3 1 9).filter fun (s, g, v) => !verticalOk s g v).map (fun c => ("bds60.read_vertical", c)) ++
+  ((codes3 0 12).filter fun (s, _, v) => !selectedOk s v).map (fun c => ("bds40.read_selected", c)) ++
+  ((codes3 0 12).filter fun (s, _, v) => !qnhOk s v).map (fun c => ("bds40.read_qnh", c)) ++
+  ((codes3 0 11).filter fun (s, _, v) => !pressure44Ok s v).map (fun c => ("bds44.read_pressure", c)) ++
+  ((codes3 0 6).filter fun (s, _, v) => !humidityOk s v).map (fun c => ("bds44.read_humidity", c))
 
 end Rs1090.Proofs.GenBds
